@@ -93,6 +93,46 @@ def usesChannel : Level → Opts → Bool
 /-- `GetResponseHeaderDumpers`, and the same filter written inline at the other call sites. -/
 def dumpersFor (p : Part) (ds : List Opts) : List Opts := ds.filter (·.enabled p)
 
+/-! ### the convenience setters -/
+
+/-- `Client.EnableDumpAll…` / `Request.EnableDump…` (and `Client.EnableDumpEachRequest…`, which
+call the request-level ones from a before-request middleware). -/
+inductive Preset
+  | all | withoutRequestBody | withoutResponseBody | withoutResponse | withoutRequest
+  | withoutHeader | withoutBody | async | to (w : Writer)
+  deriving DecidableEq, Repr
+
+/-- Parts a preset switches off. -/
+def Preset.off : Preset → List Part
+  | .withoutRequestBody => [.reqBody]
+  | .withoutResponseBody => [.respBody]
+  | .withoutResponse => [.respHeader, .respBody]
+  | .withoutRequest => [.reqHeader, .reqBody]
+  | .withoutHeader => [.reqHeader, .respHeader]
+  | .withoutBody => [.reqBody, .respBody]
+  | _ => []
+
+/-- The setters mutate the one options object of the client / request (they never switch a
+part back on). -/
+def Preset.apply (p : Preset) (o : Opts) : Opts :=
+  let o1 : Opts := { o with
+    requestHeader := o.requestHeader && !(p.off.contains .reqHeader),
+    requestBody := o.requestBody && !(p.off.contains .reqBody),
+    responseHeader := o.responseHeader && !(p.off.contains .respHeader),
+    responseBody := o.responseBody && !(p.off.contains .respBody) }
+  match p with
+  | .async => { o1 with async := true }
+  | .to w => { o1 with output := some w }
+  | _ => o1
+
+/-- `newDefaultDumpOptions` (client level, Output = stdout) / `Request.getDumpOptions`
+(request level, Output = the request's dump buffer `buf`). -/
+def defaultOpts (out : Writer) : Opts :=
+  { output := some out, requestHeader := true, requestBody := true, responseHeader := true,
+    responseBody := true }
+
+def applyPresets (ps : List Preset) (o : Opts) : Opts := ps.foldl (fun acc p => p.apply acc) o
+
 /-! ### DumpTo, sync and async -/
 
 structure Event where
